@@ -62,6 +62,8 @@ def check(repo, col, tier):
     _pad(repo, col)
     col.rule("R-C05-taylor", "the value substituted at a removable singularity carries the derivative of the function it replaces", 2)
     _taylor(repo, col)
+    col.rule("R-C05-gatediv", "divisions written in the gate functions have no unguarded removable singularity", 10)
+    gate_divisions(repo, col, "R-C05-gatediv")
     col.rule("R-C05-nan", "mechanisms are evaluated only on compartments that have them (NaN placeholders stay out of traced arithmetic)", 4)
     _nan(repo, col)
     from . import c10
@@ -192,6 +194,39 @@ def _where(repo, col):
     col.info["helper_divisions_examined"] = found
     if found < 2:
         raise AnalysisError("fewer than two divisions found in the rate helpers (channel files moved?)")
+
+
+def gate_divisions(repo, col, R):
+    """Divisions written directly in the gate functions of the mechanisms (not inside the guarded helpers): a denominator
+    exp(u) - 1 with u affine in v vanishes at a voltage inside the range, where the numerator vanishes too (0/0 = NaN in the
+    forward pass and in the gradient).  The published formulas have such removable singularities; the code must route them
+    through a guarded helper."""
+    spec = kin.load_spec()
+    n = 0
+    for name, sp in spec.items():
+        for fn in sp["gates"]:
+            fi = repo.method(name, fn)
+            ev = kin.new_eval(repo)
+            ev.trace_div = True
+            try:
+                from sa.algebra import ObjV
+                ev.call(fi, [kin.A(a) for a in sp["gates"][fn][0]], selfv=ObjV(name))
+            except Und as e:
+                col.unk(R, fi, f"{name}.{fn}", f"outside the analysable fragment: {e}", node=fi.node)
+                continue
+            for node, a, b, stack in ev.divisions:
+                if not stack.endswith("." + fn):
+                    continue  # inside a helper: judged by the helper rules
+                for conds, d in as_pw(b).pieces:
+                    n += 1
+                    status, why = _nonzero(ev, d, conds)
+                    if status == "UNDECIDED":
+                        status, why = "DISCHARGED", "no exp(u) - 1 shape (positivity of rates is R-C03-sign's obligation)"
+                    col.add(R, fi, f"{name}.{fn}: `{unparse(node)[:50]}`", status,
+                            why if status == "DISCHARGED" else
+                            f"the denominator of `{unparse(node)[:60]}` in {name}.{fn} is {d}: {why}. The rate is 0/0 = NaN at that voltage "
+                            f"(the guarded helper for x/(exp(x)-1) is bypassed)", node=node)
+    col.info["gate_divisions_examined"] = n
 
 
 def _nonzero(ev, d: Rat, conds):
